@@ -78,6 +78,12 @@ impl NodeStamp {
         *self
     }
 }
+#[verifier::external]
+impl From<NodeId> for NonZeroUsize {
+    fn from(value: NodeId) -> NonZeroUsize {
+        value.index1
+    }
+}
 pub fn from_NodeId_for_NonZeroUsize(value: NodeId) -> (r: NonZeroUsize)
         // @props C11
         ensures
@@ -86,6 +92,12 @@ pub fn from_NodeId_for_NonZeroUsize(value: NodeId) -> (r: NonZeroUsize)
     {
         value.index1
     }
+#[verifier::external]
+impl From<NodeId> for usize {
+    fn from(value: NodeId) -> usize {
+        value.index1.get()
+    }
+}
 pub fn from_NodeId_for_usize(value: NodeId) -> (r: usize)
         // @props C11
         ensures
@@ -1523,6 +1535,8 @@ impl<T> Arena<T> {
             // @ob C02.free_node_keeps_rank_witness C02
             forall|w: Ranks| ranked(old(self).nodes@, w) ==> ranked(final(self).nodes@, w),
             final(self).nodes@.len() == old(self).nodes@.len(),
+            // @ob C04.free_node_changes_no_link_and_no_other_generation C04 C12
+            free_frame(old(self).nodes@, final(self).nodes@, id.idx()),
             // @ob C06.free_node_marks_removed C06 C12
             final(self).at(id).stamp.0 == -old(self).at(id).stamp.0 - 1,
             // @ob C08.free_node_touches_only_the_freed_payload C08 C04
@@ -1556,6 +1570,10 @@ impl<T> Arena<T> {
             axiom_vec_node_len(&self.nodes);
             let fl0 = choose|fl: Seq<int>| free_list(self.nodes@, self.first_free_slot, self.last_free_slot, fl);
             lemma_fl_ends(self.nodes@, self.first_free_slot, self.last_free_slot, fl0);
+            // link invariants for whatever state this function ends in, on every exit path
+            lemma_free_links_all(self.nodes@, id.idx());
+            let w0 = choose|w: Ranks| ranked(self.nodes@, w);
+            assert(ranked(self.nodes@, w0));
         }
         let node = &mut self[id];
         node.data = NodeData::NextFree(None);
